@@ -273,11 +273,32 @@ func numberValues(r *rand.Rand, n int, tw *TraceWriter) []interface{} {
 			if f32 := float32(s); !math.IsInf(float64(f32), 0) {
 				vs = append(vs, f32)
 				vs = append(vs, complex(f32, float32(prev)))
+				// the float64 / complex128 that EQUALS the float32 just rendered (its exact widening), right after it:
+				// what is written for a value must not depend on which other literals were rendered before
+				vs = append(vs, float64(f32), complex(float64(f32), float64(float32(prev))))
 			}
 			vs = append(vs, complex(s, prev), complex(prev, s))
 		}
 		if !math.IsInf(float64(float32(x)), 0) {
 			prev = x
+		}
+	}
+	// one numeric value through every type that can hold it, in shuffled type orders (a literal's text must depend on
+	// its own type and value only, not on the literals of other types rendered earlier in the process)
+	for _, x := range []int64{0, 1, 7, 100, 127, 128, 255, 256, 1000, 65535, 100000, 1 << 24, 1<<24 + 1, 1 << 31, 1<<53 + 1} {
+		typed := []interface{}{int(x), int64(x), uint(x), uint64(x), uintptr(x), float64(x), float32(x), complex(float64(x), 0), complex(float32(x), 0)}
+		if x <= math.MaxInt32 {
+			typed = append(typed, int32(x), uint32(x))
+		}
+		if x <= math.MaxInt16 {
+			typed = append(typed, int16(x), uint16(x))
+		}
+		if x <= math.MaxInt8 {
+			typed = append(typed, int8(x), uint8(x))
+		}
+		for round := 0; round < 3; round++ {
+			r.Shuffle(len(typed), func(i, j int) { typed[i], typed[j] = typed[j], typed[i] })
+			vs = append(vs, typed...)
 		}
 	}
 	return vs
